@@ -6,6 +6,12 @@ SPECS = [
          bound="one client field declaration: parent type, field name, optional description, selection set {scalar, object {selection set {scalar}}}, one variable declaration {name, type}; every span a symbolic u32 <= 1000 under the nesting invariant; every cursor offset <= 1000; unwind 3",
          what="resolve() returns the innermost node containing the cursor (variant and node identity), with the parent chain of enclosing nodes",
          timeout=1800, mem_gb=24),
+    dict(name="c32_client_pointer_declaration", batch="ast2", tiers=("quick", "thorough"),
+         bound="one client pointer declaration: parent type, pointer name, target type, optional description, flat selection set with two scalar selections; all spans symbolic <= 1000; every cursor offset; unwind 3",
+         what="innermost node (variant, identity - in particular the selection under the cursor and not its sibling) and the pointer-declaration parent variants",
+         timeout=1800, mem_gb=24),
+    dict(name="c32_entrypoint_declaration", batch="ast2", tiers=("quick", "thorough"),
+         bound="one entrypoint declaration: parent type and field name spans symbolic", what="innermost node and parent variant", timeout=900),
 ]
 FUNCTIONS = ["#[derive(ResolvePosition)] expansions for ClientFieldDeclaration, SelectionSet, ScalarSelection, ObjectSelection, VariableDeclarationInner, "
              "EntityNameWrapper, ClientScalarSelectableNameWrapper, Description, VariableNameWrapper", "impl ResolvePosition for SelectionType / TypeAnnotationDeclaration",
@@ -14,10 +20,10 @@ FILES = ["crates/resolve_position_macros/src/resolve_position_macro.rs", "crates
          "crates/isograph_lang_types/src/declarations/client_selectable_declaration.rs", "crates/isograph_lang_types/src/declarations/selection_declaration.rs",
          "crates/isograph_lang_types/src/declarations/variable_declaration.rs", "crates/isograph_lang_types/src/string_key_wrappers.rs", "crates/common_lang_types/src/span.rs"]
 ASSUMPTIONS = [
-    "one AST shape (listed in the bound); the solver decides all span values and the cursor, not the shape",
+    "three AST shapes (client field, client pointer, entrypoint; listed in the bounds); the solver decides all span values and the cursor, not the shapes",
     "parser nesting invariant assumed: children inside parents, siblings strictly separated (Span::contains is inclusive at both ends, so touching siblings are ambiguous and excluded)",
     "names are the pre-allocated empty interned string (position resolution never reads names)",
-    "client pointer and entrypoint declarations, arguments and directives are outside the bound",
+    "arguments, directives, variable default values and deeper nesting are outside the bound",
 ]
 
 def main():
